@@ -3,9 +3,9 @@ import random
 import props_PN
 from propdefs import bfs
 
-N_DOCS = 27
-GOOD_URLS = [1, 2, 3, 4, 16, 13, 17]
-ODD_URLS = [5, 6, 7, 8, 9, 10, 11, 12, 13, 14, 15, 18, 19]
+N_DOCS = 28
+GOOD_URLS = [1, 2, 3, 4, 16, 13, 17, 12]
+ODD_URLS = [5, 6, 7, 8, 9, 10, 11, 13, 14, 15, 18, 19]
 
 GEN = dict(runs=dict(quick=[bfs("MC_Calls", "Calls_design")], thorough=[bfs("MC_Calls", "Calls_design")]))
 TRACE = dict(module="CallsTrace", cfg="CallsTrace")
